@@ -360,6 +360,14 @@ theorem deputyRoot_unconstrained_off_snapshot :
       accept Witness.ctx { Witness.honest with header := { Witness.honest.header with deputyRoot := d } } = .ok := by
   decide
 
+/-- **duplicate_tx_in_block_accepted** (witness): nothing in the check sequence looks for the same
+    transaction twice INSIDE one block (`ExistTxs` only walks the ancestors); when re-execution of such a
+    block succeeds — it does on the real engine, oracle `c02/accepted-invalid/tx-duplicate-in-block` —
+    the block is accepted. -/
+theorem duplicate_tx_in_block_accepted :
+    accept Witness.ctx { Witness.honest with txs := [⟨1, 20000010, true⟩, ⟨1, 20000010, true⟩] } = .ok := by
+  decide
+
 /-- the scratch account manager IS touched by a rejected block that reaches re-execution (the only
     non-durable trace; `reject_no_effect` is about the durable part) -/
 example :
